@@ -167,6 +167,13 @@ func walkToUnescapedChar(buf []byte, char byte, startAt int, isEscaped bool) int
 func scanMetricName(buf []byte, isEscaped bool) (endAt int, err error) {
 	// unescaped comma;
 	commaAt := walkToUnescapedChar(buf, ',', 0, isEscaped)
+	if commaAt > 0 {
+		// NOTE: metric name ends at the first comma only if there is no whitespace before it, else the line has no tags
+		// and the comma belongs to the fields(cpu a=1,b=2).
+		if whiteSpaceAt := walkToUnescapedChar(buf, ' ', 0, isEscaped); whiteSpaceAt > 0 && whiteSpaceAt < commaAt {
+			return whiteSpaceAt, nil
+		}
+	}
 	switch {
 	case commaAt == 0:
 		return -1, ErrMissingMetricName
